@@ -19,6 +19,7 @@ Definition registry_accesses : list (string * string * string) := [
   ("BaseDataFrame.__init__", "_random_branch_id", "draw");
   ("BaseDataFrame.__init__", "_random_sequence_id", "draw");
   ("BaseDataFrame.__init__", "temp_views", "df_attr");
+  ("BaseDataFrame._add_ctes_to_expression", "_auto_incrementing_name", "draw");
   ("BaseDataFrame._resolve_pending_hints", "name_to_sequence_id_mapping", "index");
   ("BaseDataFrame._resolve_pending_hints", "name_to_sequence_id_mapping", "member");
   ("BaseDataFrame.alias", "_add_alias_to_mapping", "call");
